@@ -98,7 +98,7 @@ Qed.
 Inductive search_case (inp : list byte) (r : fa) (off : nat) (T : bool * nat * list nat)
   : fa * sres -> Prop :=
 | SC_found sp sq :
-    T = (true, sp + off, shift off sq) -> spos r < sp -> sp <= length (buf r) ->
+    T = (true, sp + off, shift off sq) -> spos r < sp -> sp < length (buf r) ->
     SeqWf (start r) sp sq -> sq <> [] ->
     search_case inp r off T (set_seqpos (set_spos r sp) sq, SFound true)
 | SC_eof sp sq :
@@ -142,6 +142,7 @@ Proof.
   rewrite Hsh in Hwin. unfold ScanInv in Hinv. rewrite Hinv in Hwin.
   destruct f.
   - (* found *)
+    pose proof (fa_scan_found _ _ _ _ _ E) as [Hlt _]. rewrite skipn_length in Hlt.
     apply SC_found; auto; try lia. eapply fa_scan_found_nonempty; eassumption.
   - cbn [buf cap set_seqpos set_spos].
     destruct (length (buf r) <? cap r) eqn:Ec; [apply Nat.ltb_lt in Ec | apply Nat.ltb_ge in Ec].
@@ -216,7 +217,7 @@ Global Opaque SeqWf.
 (** outcome of a completed search for the record at [s] *)
 Definition Found (inp : list byte) (r : fa) (off : nat) (T : bool * nat * list nat) : Prop :=
   (T = (true, spos r + off, shift off (seqpos r)) /\ st r <> FFinished /\
-   SeqWf (start r) (spos r) (seqpos r) /\ seqpos r <> [])
+   SeqWf (start r) (spos r) (seqpos r) /\ seqpos r <> [] /\ spos r < length (buf r))
   \/ (exists sq, T = (false, spos r + off, shift off sq) /\ seqpos r = sq ++ [spos r] /\
       st r = FFinished /\ SeqWf (start r) (spos r) sq /\ s_pos (src r) = length inp).
 
@@ -290,7 +291,7 @@ Proof.
   inversion Hsearch as [sp sq HT Hlt Hle Hw Hne | sp sq HT Heof Hle1 Hle2 Hw | sp sq HT Hfull3 Hle1 Hle2 Hw]; subst r3 sr.
   - (* found *)
     assert (Hlt' : spos r1 < sp) by exact Hlt.
-    assert (Hle2' : sp <= length (window inp off1 e')) by exact Hle.
+    assert (Hle2' : sp < length (window inp off1 e')) by exact Hle.
     assert (Hw' : SeqWf (start r1) sp sq) by exact Hw.
     eexists _, off1. split; [reflexivity|].
     unfold r2; cbn [buf src cap start spos seqpos polf pline pbyte st set_seqpos set_spos set_log set_src set_buf].
